@@ -5,3 +5,7 @@ import LyModel.Props.C05JsonNum
 #print axioms LyModel.Props.C05.json_string_buffer_safe
 #print axioms LyModel.Props.C05.xml_value_buffer_safe
 #print axioms LyModel.Props.C05.json_number_value_fails
+#print axioms LyModel.Props.C05.json_number_value_fails_vacuous_for_fixed_source
+#print axioms LyModel.Props.C05.f14_witness_fixed
+#print axioms LyModel.Props.C05.f14_witness2_fixed
+#print axioms LyModel.Props.C05.json_number_value_at_f14_witnesses_fixed
